@@ -73,8 +73,10 @@ def cmdMirpGetters : P String := do
     let seqS := match m.getSeqBased strict with
       | none => "none"
       | some I => s!"{I.V} {I.L} {showGraph I.g}"
-    let Pp := m.getPathBased pick
-    pure s!"ok {showRats m.arcGrid} | {showOpt showRat (m.highCost freqs)} | {seqS} | {showList (fun rt => showList toString rt) Pp.routes} | {showRats Pp.costs}"
+    let pathS := match m.getPathBased freqs pick with
+      | none => "none | none"
+      | some Pp => s!"{showList (fun rt => showList toString rt) Pp.routes} | {showRats Pp.costs}"
+    pure s!"ok {showRats m.arcGrid} | {showOpt showRat (m.highCost freqs)} | {seqS} | {pathS}"
 
 def mirpCmds : List (String × P String) := [("tw", cmdTw), ("mirp", cmdMirp), ("mirp.getters", cmdMirpGetters)]
 
